@@ -546,6 +546,13 @@ ben('b-c09-helper-guard', TREE, [(aud,
 
 /// Verifies an audit proof, given start and end hashes for a merkle patricia tree.''')], 'length guard moved into a helper')
 
+# ---------------------------------------------------------------- renamed / moved functions (frozen signatures, mir._anchor_renames)
+ben('b-rename-verify-nonmembership', VERIFIERS, [(base, 'verify_nonmembership::<TC>', 'verify_absence_in_tree::<TC>', 0),
+                                                 (base, 'pub(crate) fn verify_nonmembership<TC', 'pub(crate) fn verify_absence_in_tree<TC')],
+    'anchor function renamed (all uses)')
+ben('b-rename-determine-node', ['C11', 'C13', 'C02'], [(tn, 'determine_node_to_get', 'select_node_as_of', 0), (azks, 'determine_node_to_get', 'select_node_as_of', 0)],
+    'selector function renamed (all uses)')
+
 out = os.path.join(os.path.dirname(os.path.abspath(__file__)), 'benign.json')
 json.dump({'benign': B}, open(out, 'w'), indent=1)
 print('%d benign variants -> %s' % (len(B), out))
